@@ -92,6 +92,11 @@ func limbScalars() []*big.Int {
 	add(new(big.Int).Sub(new(big.Int).Lsh(one, 254), one))
 	add(new(big.Int).Sub(blsR, one))
 	add(new(big.Int).Rsh(new(big.Int).Add(blsR, one), 1))
+	for i, k := range sourceScalars() { // constants of the library's own source (at most 8 here: the pool is used pairwise)
+		if i%3 == 0 && len(out) < 60 {
+			add(k)
+		}
+	}
 	return out
 }
 
@@ -844,7 +849,8 @@ func genC17(c *Ctx) {
 		c.Case("prove-is-sign", fmt.Sprintf("sig.expect 0x%s %s", k1.Text(16), hx(hp)), "ok "+hx(p1))
 		emit := func(class string, a *big.Int, pa crypto.PublicKey, x []byte, b *big.Int, pb crypto.PublicKey, y []byte) {
 			line := fmt.Sprintf("spock 0x%s %s 0x%s %s", a.Text(16), hx(x), b.Text(16), hx(y))
-			c.Case(class, line, stable3(func() string { return boolAns(crypto.SPOCKVerify(pa, x, pb, y)) }))
+			xc, yc := cloneOrNil(x), cloneOrNil(y) // windows of larger buffers with live bytes behind them
+			c.Case(class, line, stable3(func() string { return boolAns(crypto.SPOCKVerify(pa, xc, pb, yc)) }))
 		}
 		emit("honest", k1, pk1, p1, k2, pk2, p2)
 		emit("swapped-pairs", k2, pk2, p2, k1, pk1, p1)
